@@ -109,6 +109,14 @@ var configs = map[string]propCfg{
 		Thorough:   tierCfg{BudgetS: 900, Chunk: 120, MaxRuns: 5000000},
 		Assume:     assumeAll, Real: realAll, Stub: stubAll,
 	},
+	"C14": {
+		Level:      "exploration",
+		Rule:       "2-3 candidates, each with its own backend over one shared engine (memkv, Badger, TiKV-mock, sometimes behind the metrics wrapper), run seeded scripts over the real resourcelock.Interface (Get; Create; Get followed by Create-if-absent or Update, as client-go's elector does), with the scheduler interleaving their engine steps (point read, timestamp read, commit before/after).",
+		NonTrivial: "acquire attempts (create/update) of two candidates overlapped in scheduler steps.",
+		Quick:      tierCfg{BudgetS: 35, Chunk: 150, MaxRuns: 400000},
+		Thorough:   tierCfg{BudgetS: 600, Chunk: 150, MaxRuns: 5000000},
+		Assume:     assumeAll, Real: append([]string{"pkg/backend/election (resource lock)"}, realAll...), Stub: append([]string{"client-go LeaderElector loop: replaced by seeded candidate scripts over the real resourcelock.Interface (the elector itself runs in C15/C18)"}, stubAll...),
+	},
 }
 
 // expectedProbes lists the reach probes whose absence is reported as a coverage gap.
@@ -124,5 +132,6 @@ var expectedProbes = map[string][]string{
 	"C11": {"batch-applied", "batch-condition-failed", "backward-iteration", "iterator-read-past-concurrent-write", "compare-and-delete-applied", "compare-and-delete-refused", "batch-open-across-steps"},
 	"C12": {"guarded-update-of-absent-key", "compaction-in-history"},
 	"C13": {"several-advertised-partitions", "multi-partition-stream-read", "border-inside-a-keys-versions", "stream-with-data"},
+	"C14": {"acquire-attempts-overlapped", "acquire-succeeded", "acquire-refused"},
 	"C03": {"read-at-historical-revision", "limit-cut-result", "compaction-before-reread"},
 }
